@@ -29,11 +29,14 @@ def main():
         if allow_panic and allow_panic(p["info"]): continue
         ces.append(dict(what="panic: " + p["info"], model=p.get("model"), trace=p.get("trace")))
     # distinct by `what`
-    seen, dist = set(), []
+    seen, dist, alts = set(), [], {}
     for c in ces:
         k = c["what"]
         whats.append(k)
-        if k in seen: continue
+        if k in seen:
+            # other models of the same violation: tried when the first one cannot be realised / does not reproduce natively
+            alts.setdefault(k, []).append(c)
+            continue
         seen.add(k); dist.append(c)
     nat = 0
     rp = hd.get("replay")
@@ -44,9 +47,18 @@ def main():
         try:
             import nativereplay
             ok, note, payload = nativereplay.replay(scratch, rp, c, params)
+            nat += 1
+            pool = alts.get(c["what"], [])
+            step = max(1, len(pool) // 12)
+            for c2 in ([] if ok else pool[::step][:14]):
+                ok2, note2, payload2 = nativereplay.replay(scratch, rp, c2, params)
+                nat += 1
+                if ok2:
+                    ok, note, payload = ok2, "[another model of the same violation] " + note2, payload2
+                    c["model"], c["trace"], c["extra"] = c2.get("model"), c2.get("trace"), c2.get("extra")
+                    break
             c["reproduced"], c["replay_note"], c["replay"] = ok, note, payload
             c["native_runs"] = 1
-            nat += 1
         except Exception as e:
             c["reproduced"] = False; c["replay_note"] = "replay failed: " + repr(e)
     # prefer a reproduced counterexample first
